@@ -63,6 +63,13 @@ claim("C06", "who-may-receive / who-may-spawn rules over the buffer channel plus
       "Decides single FIFO queue + single consumer (the structural basis of per-producer order) and that each policy constant's buffer-full path does what its name says: Discard drops the arriving item without blocking, DiscardOldest removes from the head and keeps the arriving item without blocking, Block enqueues with a blocking send and drops nothing; parser names map to the same-named constants. Scheduling is not decided; channel FIFO is trusted.",
       NOTE_COMMON, "DESIGN.md §4 C06")
 
+claim("C03", "alias (ownership) closure of pooled buffers against returned values, event typestate (live/released/sent), exactly-one-sink-write rule, constant-folded open flags, who-may-write effect scan of the hot path",
+      "Decides the structural conditions for whole, unmixed lines: nothing aliasing a buffer released to the pool escapes a layout, events are not touched after release or released after being queued, one sink write of the whole slice per appender call, O_APPEND without O_TRUNC, and no non-atomic store to shared state on the log call path. Atomicity of write(2) and the scheduler are not decided.",
+      NOTE_COMMON, "DESIGN.md §4 C03")
+claim("C12", "must-NOT-gate analysis of every raw-write chain (same call-string engine as C01), per-iteration delivery count, alias closure of the []byte parameter against retention sinks, dominating-guard rules for the handle registry",
+      "Decides that no level gate stands between a logger's Write (or the worker's raw branch) and any reference's Write, that each reference receives the bytes exactly once and unchanged, that the caller's slice is never retained without a copy, that the handle reports len(b), is get-or-create, and is bound only after a successful look-up (else Refresh fails). Ordering among concurrent writers is not decided.",
+      NOTE_COMMON, "DESIGN.md §4 C12")
+
 PENDING_REASON = "check not built yet in this commit (static rule planned in DESIGN.md section 4); no claim is made until the rule exists and has been validated both ways"
 
 def main():
